@@ -21,12 +21,12 @@
 EXTENDS TraceLib
 
 VARIABLES l, ev,
-          P,      \* pool name -> [live, amount, vested, moves, start, expire, bal, owner]
+          P,      \* pool name -> [live, amount, vested, start, expire, bal, owner]
           B       \* the addressed pool before the event
 
 vars == <<l, ev, P, B>>
 Null == [ev |-> "none"]
-NoPool == [live |-> FALSE, amount |-> <<>>, vested |-> <<>>, moves |-> <<>>, start |-> 0, expire |-> 0, bal |-> 0, owner |-> "none"]
+NoPool == [live |-> FALSE, amount |-> <<>>, vested |-> <<>>, start |-> 0, expire |-> 0, bal |-> 0, owner |-> "none"]
 
 TraceInit == l = 1 /\ ev = Null /\ P = <<>> /\ B = NoPool
 IsEvent(e) == l <= Len(Trace) /\ Trace[l].ev = e /\ l' = l + 1
@@ -39,11 +39,10 @@ TraceVest ==
          b == Get(P, e.pool, NoPool)
          am == PutPairs(<<>>, e.amount, 1)
          ve == PutPairs(<<>>, e.vested, 1)
-         mv == [d \in DOMAIN ve |-> Get(b.moves, d, 0) + (IF ve[d] > Get(b.vested, d, 0) THEN 1 ELSE 0)]
      IN /\ ev' = e /\ B' = b
         /\ P' = IF e.pool = "none" THEN P
                 ELSE IF e.exists
-                  THEN Put(P, e.pool, [live |-> TRUE, amount |-> am, vested |-> ve, moves |-> mv, start |-> e.start,
+                  THEN Put(P, e.pool, [live |-> TRUE, amount |-> am, vested |-> ve, start |-> e.start,
                                        expire |-> e.expire, bal |-> e.bal, owner |-> e.owner])
                   ELSE Put(P, e.pool, [b EXCEPT !.live = FALSE])
 
@@ -64,7 +63,6 @@ Judged == (Before \cup After) \ (IF B.live THEN (Before \ After) \cap {B.owner} 
 Amount(d) == IF d \in After THEN A.amount[d] ELSE B.amount[d]
 OldV(d) == IF d \in Before THEN B.vested[d] ELSE 0
 NewV(d) == IF d \in After THEN A.vested[d] ELSE B.vested[d] + Got(d)
-Moves(d) == IF d \in After THEN A.moves[d] ELSE Get(B.moves, d, 0) + 1
 Ref == IF B.live THEN B ELSE A                    \* start / expire of the pool
 Clip(t) == IF t > Ref.expire THEN Ref.expire ELSE IF t < Ref.start THEN Ref.start ELSE t
 Unvested(p) == SumFun([d \in DOMAIN p.amount |-> p.amount[d] - p.vested[d]], DOMAIN p.amount)
@@ -79,10 +77,15 @@ C16_Monotone ==
   IsV => /\ \A d \in Judged : NewV(d) >= OldV(d)
          /\ \A d \in Before \cap After : A.amount[d] = B.amount[d]
          /\ (B.live /\ A.live) => (A.start = B.start /\ A.expire = B.expire /\ A.owner = B.owner /\ After \subseteq Before)
-(* never ahead of the straight line; one unit of float rounding per payment is tolerated *)
+(* never ahead of the straight line from (start, 0) to (expire, amount), exactly as in Vesting.tla: the    *)
+(* contract pays whole tokens and truncates, so the vested total is at most the floor of the line.  At   *)
+(* the driven magnitudes (amount <= 50000, duration <= 7201 s) float64 evaluates left * period / full    *)
+(* with the same integer part as exact arithmetic (a non-integer quotient is >= 1/7201 away from the     *)
+(* next integer, the float error is < 1e-10), so no rounding allowance is needed; an allowance per       *)
+(* payment would let every payment run up to a token ahead and the surplus add up unnoticed.             *)
 C16_Schedule ==
   IsV => \A d \in Judged :
-           NewV(d) * (Ref.expire - Ref.start) <= Amount(d) * (Clip(ev.now) - Ref.start) + Moves(d) * (Ref.expire - Ref.start)
+           NewV(d) * (Ref.expire - Ref.start) <= Amount(d) * (Clip(ev.now) - Ref.start)
 (* the tokens a destination received are the tokens recorded as vested *)
 C16_PaidIsVested ==
   IsV => \A d \in (Before \cap After) \ {B.owner} : Got(d) = A.vested[d] - B.vested[d]
